@@ -1,7 +1,670 @@
 (** C17 — lemmas. *)
 From Coq Require Import List Arith NArith ZArith Bool Lia.
-From SV Require Import Common.Trie C17.Model.
+From SV Require Import Common.Trie Common.TrieProofs C17.Model.
 Import ListNotations.
 
-Lemma ins_sorted_length x l : length (ins_sorted x l) = S (length l).
-Proof. induction l as [|y r IH]; cbn [ins_sorted length]; [reflexivity|]. destruct (snd x <? snd y)%Z; cbn [length]; lia. Qed.
+(** ** sorted candidate lists *)
+Fixpoint sorted (l : list entry) : Prop :=
+  match l with
+  | [] => True
+  | x :: r => (forall y, In y r -> (snd x <= snd y)%Z) /\ sorted r
+  end.
+
+Lemma ins_sorted_In x l y : In y (ins_sorted x l) <-> y = x \/ In y l.
+Proof.
+  induction l as [|z r IH]; cbn [ins_sorted In]; [intuition|].
+  destruct (snd x <? snd z)%Z; cbn [In]; rewrite ?IH; intuition.
+Qed.
+
+Lemma ins_sorted_sorted x l : sorted l -> sorted (ins_sorted x l).
+Proof.
+  induction l as [|z r IH]; cbn [ins_sorted sorted]; intros H; [split; [intros y []|exact I]|].
+  destruct H as [Hz Hr]. destruct (snd x <? snd z)%Z eqn:E.
+  - apply Z.ltb_lt in E. cbn [sorted]. split; [|split; assumption].
+    intros y [<-|Hy]; [lia|]. specialize (Hz y Hy). lia.
+  - apply Z.ltb_ge in E. cbn [sorted]. split; [|apply IH; exact Hr].
+    intros y Hy. apply ins_sorted_In in Hy. destruct Hy as [->|Hy]; [exact E|apply Hz; exact Hy].
+Qed.
+
+Lemma fold_ins_In l : forall acc y,
+    In y (fold_left (fun a x => ins_sorted x a) l acc) <-> In y acc \/ In y l.
+Proof.
+  induction l as [|x l IH]; intros acc y; cbn [fold_left In]; [intuition|].
+  rewrite IH, ins_sorted_In. intuition.
+Qed.
+Lemma fold_ins_sorted l : forall acc, sorted acc -> sorted (fold_left (fun a x => ins_sorted x a) l acc).
+Proof. induction l as [|x l IH]; intros acc H; cbn [fold_left]; [exact H|]. apply IH, ins_sorted_sorted, H. Qed.
+
+Lemma stable_sort_In l y : In y (stable_sort l) <-> In y l.
+Proof. unfold stable_sort. rewrite fold_ins_In. cbn [In]. intuition. Qed.
+Lemma stable_sort_sorted l : sorted (stable_sort l).
+Proof. apply fold_ins_sorted. exact I. Qed.
+
+Lemma filter_sorted f l : sorted l -> sorted (filter f l).
+Proof.
+  induction l as [|x r IH]; cbn [filter sorted]; [auto|]. intros [Hx Hr].
+  destruct (f x); cbn [sorted]; [split|]; auto. intros y Hy. apply filter_In in Hy. apply Hx, Hy.
+Qed.
+
+Lemma last_opt_nil {A} (l : list A) : last_opt l = None <-> l = [].
+Proof.
+  unfold last_opt. destruct l as [|a l]; [cbn; tauto|].
+  destruct (rev (a :: l)) eqn:E; [|split; discriminate].
+  apply (f_equal (@length A)) in E. rewrite rev_length in E. discriminate.
+Qed.
+Lemma last_opt_In {A} (l : list A) x : last_opt l = Some x -> In x l.
+Proof.
+  unfold last_opt. destruct (rev l) eqn:E; [discriminate|]. intros H; inversion H; subst.
+  apply in_rev. rewrite E. left; reflexivity.
+Qed.
+Lemma last_opt_app {A} (l : list A) x : last_opt (l ++ [x]) = Some x.
+Proof. unfold last_opt. rewrite rev_app_distr. reflexivity. Qed.
+
+Lemma sorted_last_max l x : sorted l -> last_opt l = Some x -> forall y, In y l -> (snd y <= snd x)%Z.
+Proof.
+  induction l as [|z r IH]; intros S L y Hy; [destruct Hy|].
+  destruct S as [Hz Hr]. destruct r as [|z' r'].
+  - cbn in L. inversion L; subst. destruct Hy as [<-|[]]. lia.
+  - assert (L' : last_opt (z' :: r') = Some x).
+    { unfold last_opt in *. cbn [rev] in *. destruct (rev r' ++ [z']) eqn:E.
+      - apply (f_equal (@length entry)) in E. rewrite app_length in E. cbn in E. lia.
+      - cbn [app] in L. exact L. }
+    destruct Hy as [<-|Hy].
+    + apply Hz. apply last_opt_In. exact L'.
+    + apply IH; assumption.
+Qed.
+
+(** ** association-list helpers *)
+Lemma aget_aput_same {A} k (a : A) l : aget k (aput k a l) = Some a.
+Proof.
+  unfold aput. destruct (aget k l) eqn:E.
+  - apply aget_aset_same. congruence.
+  - rewrite aget_app, E. cbn [aget]. rewrite beq_refl. reflexivity.
+Qed.
+Lemma aget_aput_other {A} k k' (a : A) l : k' <> k -> aget k' (aput k a l) = aget k' l.
+Proof.
+  intros NE. unfold aput. destruct (aget k l) eqn:E.
+  - apply aget_aset_other; exact NE.
+  - rewrite aget_app. destruct (aget k' l); [reflexivity|]. cbn [aget].
+    destruct (beq k' k) eqn:E'; [apply beq_eq in E'; congruence|reflexivity].
+Qed.
+
+(** ** the three structures *)
+Section Inv.
+  Variable re_ok : bytes -> bool.
+  Variable re_match : bytes -> bytes -> bool.
+  Notation resolver := resolver.
+
+  Definition idxl (i : list (bytes * list entry)) (n : bytes) : list entry :=
+    match aget n i with Some l => l | None => [] end.
+  Definition idxf (r : resolver) (n : bytes) : list entry := idxl (idx r) n.
+  Definition top (l : list entry) : option bytes := option_map fst (last_opt l).
+
+  (** [three_structures_agree]: the trie maps every name to the last (longest
+      lived, latest added among equals) entry of the index; the index of a
+      name lists exactly the stored certificates that carry the name, sorted by
+      expiration. *)
+  Record agree (d : trie bytes) (st : list (bytes * cert)) (i : list (bytes * list entry)) : Prop := {
+    ag_wf : wf bytes d;
+    ag_trie : forall n, good_key n -> option_map snd (getk bytes re_match d n) = top (idxl i n);
+    ag_idx : forall n fp e, In (fp, e) (idxl i n) <->
+                            exists c, aget fp st = Some c /\ In n (c_names c) /\ c_exp c = e;
+    ag_sorted : forall n, sorted (idxl i n);
+    ag_names : forall fp c, aget fp st = Some c -> Forall good_key (c_names c) }.
+
+  Definition three_structures_agree (r : resolver) : Prop := agree (domains r) (store r) (idx r).
+
+  Lemma agree_empty : three_structures_agree empty_resolver.
+  Proof.
+    constructor; cbn [empty_resolver domains store idx].
+    - apply wf_root.
+    - intros n G. rewrite getk_cget by (try assumption; apply wf_root).
+      rewrite cget_root by (apply canon_good; exact G). reflexivity.
+    - intros n fp e. cbn. split; [intros []|intros (c & H & _); discriminate].
+    - intros n; exact I.
+    - intros fp c H; discriminate.
+  Qed.
+
+  (** re-pointing a name *)
+  Lemma repoint_same d n f :
+    good_key n -> wf bytes d ->
+    option_map snd (getk bytes re_match (repoint re_ok d n f) n) = Some f /\ wf bytes (repoint re_ok d n f).
+  Proof.
+    intros G W. unfold repoint.
+    pose proof (wf_remove_k bytes d n G W) as W1.
+    pose proof (getk_remove_same bytes re_match d n G W) as N1.
+    pose proof (insert_ok_absent bytes re_ok re_match _ n f G W1 N1) as OK.
+    pose proof (wf_insert_k bytes re_ok (fst (remove d n)) n f G W1) as W2.
+    destruct (insert re_ok (fst (remove d n)) n f) as [t' res] eqn:EI. cbn [snd fst] in *. subst res.
+    rewrite (getk_insert_same bytes re_ok re_match _ n f t' G W1 EI). split; [reflexivity|exact W2].
+  Qed.
+  Lemma repoint_other d n f n' :
+    good_key n -> good_key n' -> n <> n' -> wf bytes d ->
+    getk bytes re_match (repoint re_ok d n f) n' = getk bytes re_match d n'.
+  Proof.
+    intros G G' NE W. unfold repoint.
+    rewrite getk_insert_other by (auto using wf_remove_k). apply getk_remove_other; assumption.
+  Qed.
+
+  Lemma idxl_aput_same n l i : idxl (aput n l i) n = l.
+  Proof. unfold idxl. rewrite aget_aput_same. reflexivity. Qed.
+  Lemma idxl_aput_other n n' l i : n' <> n -> idxl (aput n l i) n' = idxl i n'.
+  Proof. intros NE. unfold idxl. rewrite aget_aput_other by exact NE. reflexivity. Qed.
+
+  (** one iteration of [add_certificate]'s loop, against a store in which the
+      new certificate already sits with the names processed so far *)
+  Lemma add_name_agree d st i fp e done n :
+    aget fp st = None -> good_key n ->
+    agree d (st ++ [(fp, mkcert fp done e)]) i ->
+    let r1 := add_name re_ok fp e (mkres d [] i) n in
+    agree (domains r1) (st ++ [(fp, mkcert fp (done ++ [n]) e)]) (idx r1).
+  Proof.
+    intros NS G A. destruct A as [W T X S N]. unfold add_name. cbn [idx domains store].
+    fold (idxl i n).
+    set (l' := stable_sort (idxl i n ++ [(fp, e)])).
+    assert (Hin : In (fp, e) l') by (apply stable_sort_In, in_or_app; right; left; reflexivity).
+    destruct (last_opt l') as [[f ef]|] eqn:EL; [|apply last_opt_nil in EL; rewrite EL in Hin; destruct Hin].
+    cbn [domains idx]. destruct (repoint_same d n f G W) as [RS RW].
+    assert (STORE : forall fp' c', aget fp' (st ++ [(fp, mkcert fp (done ++ [n]) e)]) = Some c' <->
+                                   (aget fp' st = Some c') \/ (aget fp' st = None /\ fp' = fp /\ c' = mkcert fp (done ++ [n]) e)).
+    { intros fp' c'. rewrite aget_app. destruct (aget fp' st) eqn:E1.
+      - split; [auto|intros [H|(H & _)]; congruence].
+      - cbn [aget]. destruct (beq fp' fp) eqn:E2.
+        + apply beq_eq in E2. subst fp'. split; [intros H; inversion H; auto|intros [H|(_ & _ & ->)]; congruence].
+        + apply beq_neq in E2. split; [discriminate|intros [H|(_ & H & _)]; congruence]. }
+    assert (STORE0 : forall fp' c', aget fp' (st ++ [(fp, mkcert fp done e)]) = Some c' <->
+                                    (aget fp' st = Some c') \/ (aget fp' st = None /\ fp' = fp /\ c' = mkcert fp done e)).
+    { intros fp' c'. rewrite aget_app. destruct (aget fp' st) eqn:E1.
+      - split; [auto|intros [H|(H & _)]; congruence].
+      - cbn [aget]. destruct (beq fp' fp) eqn:E2.
+        + apply beq_eq in E2. subst fp'. split; [intros H; inversion H; auto|intros [H|(_ & _ & ->)]; congruence].
+        + apply beq_neq in E2. split; [discriminate|intros [H|(_ & H & _)]; congruence]. }
+    constructor.
+    - exact RW.
+    - intros n' G'. destruct (beq n' n) eqn:En.
+      + apply beq_eq in En; subst n'. rewrite RS, idxl_aput_same. unfold top. rewrite EL. reflexivity.
+      + apply beq_neq in En. rewrite repoint_other by (auto; congruence).
+        rewrite idxl_aput_other by exact En. apply T; exact G'.
+    - intros n' fp' e'. destruct (beq n' n) eqn:En.
+      + apply beq_eq in En; subst n'. rewrite idxl_aput_same. unfold l'. rewrite stable_sort_In, in_app_iff.
+        cbn [In]. rewrite X. split.
+        * intros [(c & Hc & Hn & He)|[Heq|[]]].
+          -- apply STORE0 in Hc. destruct Hc as [Hc|(Hc & -> & ->)].
+             ++ exists c. split; [apply STORE; auto|auto].
+             ++ exists (mkcert fp (done ++ [n]) e). split; [apply STORE; auto|].
+                cbn [c_names c_exp] in *. split; [apply in_or_app; auto|exact He].
+          -- injection Heq as <- <-. exists (mkcert fp (done ++ [n]) e). split; [apply STORE; auto|].
+             cbn [c_names c_exp]. split; [apply in_or_app; right; left; reflexivity|reflexivity].
+        * intros (c & Hc & Hn & He). apply STORE in Hc. destruct Hc as [Hc|(Hc & -> & ->)].
+          -- left. exists c. split; [apply STORE0; auto|auto].
+          -- cbn [c_names c_exp] in *. subst e'. right; left; reflexivity.
+      + apply beq_neq in En. rewrite idxl_aput_other by exact En. rewrite X. split.
+        * intros (c & Hc & Hn & He). apply STORE0 in Hc. destruct Hc as [Hc|(Hc & -> & ->)].
+          -- exists c. split; [apply STORE; auto|auto].
+          -- exists (mkcert fp (done ++ [n]) e). split; [apply STORE; auto|].
+             cbn [c_names c_exp] in *. split; [apply in_or_app; auto|exact He].
+        * intros (c & Hc & Hn & He). apply STORE in Hc. destruct Hc as [Hc|(Hc & -> & ->)].
+          -- exists c. split; [apply STORE0; auto|auto].
+          -- exists (mkcert fp done e). split; [apply STORE0; auto|].
+             cbn [c_names c_exp] in *. apply in_app_or in Hn. destruct Hn as [Hn|[Hn|[]]]; [auto|congruence].
+    - intros n'. destruct (beq n' n) eqn:En.
+      + apply beq_eq in En; subst n'. rewrite idxl_aput_same. apply stable_sort_sorted.
+      + apply beq_neq in En. rewrite idxl_aput_other by exact En. apply S.
+    - intros fp' c' Hc. apply STORE in Hc. destruct Hc as [Hc|(Hc & -> & ->)].
+      + apply (N fp' c'). apply STORE0; auto.
+      + cbn [c_names]. apply Forall_app. split; [|constructor; [exact G|constructor]].
+        apply (N fp (mkcert fp done e)). apply STORE0; auto.
+  Qed.
+
+  Lemma add_name_store fp e d st i n :
+    add_name re_ok fp e (mkres d st i) n =
+    mkres (domains (add_name re_ok fp e (mkres d [] i) n)) st (idx (add_name re_ok fp e (mkres d [] i) n)).
+  Proof.
+    unfold add_name. cbn [idx domains store].
+    destruct (last_opt (stable_sort (match aget n i with Some l => l | None => [] end ++ [(fp, e)]))) as [[f ef]|];
+      reflexivity.
+  Qed.
+
+  Lemma add_names_agree fp e st names : forall done d i,
+      aget fp st = None -> Forall good_key names ->
+      agree d (st ++ [(fp, mkcert fp done e)]) i ->
+      let r' := fold_left (add_name re_ok fp e) names (mkres d st i) in
+      agree (domains r') (st ++ [(fp, mkcert fp (done ++ names) e)]) (idx r') /\ store r' = st.
+  Proof.
+    induction names as [|n names IH]; intros done d i NS G A; cbn [fold_left].
+    - rewrite app_nil_r. split; [exact A|reflexivity].
+    - inversion G as [|? ? Gn Gr]; subst. rewrite add_name_store.
+      pose proof (add_name_agree d st i fp e done n NS Gn A) as A1. cbv zeta in A1.
+      specialize (IH (done ++ [n]) _ _ NS Gr A1). cbv zeta in IH. rewrite <- app_assoc in IH. exact IH.
+  Qed.
+
+  Lemma agree_pending d st i fp e :
+    agree d st i -> aget fp st = None -> agree d (st ++ [(fp, mkcert fp [] e)]) i.
+  Proof.
+    intros [W T X S N] NS. constructor; auto.
+    - intros n fp' e'. rewrite X. split; intros (c & Hc & Hn & He).
+      + exists c. rewrite aget_app, Hc. auto.
+      + rewrite aget_app in Hc. destruct (aget fp' st) eqn:E1; [exists c0; inversion Hc; subst; auto|].
+        cbn [aget] in Hc. destruct (beq fp' fp); [|discriminate]. inversion Hc; subst. destruct Hn.
+    - intros fp' c Hc. rewrite aget_app in Hc. destruct (aget fp' st) eqn:E1; [inversion Hc; subst; eauto|].
+      cbn [aget] in Hc. destruct (beq fp' fp); [|discriminate]. inversion Hc; subst. constructor.
+  Qed.
+
+  Lemma add_cert_agree r c :
+    three_structures_agree r -> Forall good_key (c_names c) -> three_structures_agree (add_cert re_ok r c).
+  Proof.
+    intros A G. unfold add_cert. destruct (aget (c_fp c) (store r)) eqn:E; cbn [is_some]; [exact A|].
+    destruct r as [d st i]. destruct c as [fp names e]. cbn [c_fp c_names c_exp store domains idx] in *.
+    unfold three_structures_agree in *. cbn [store domains idx] in *.
+    pose proof (add_names_agree fp e st names [] d i E G (agree_pending d st i fp e A E)) as H. cbv zeta in H.
+    destruct H as [H1 H2]. rewrite H2. cbn [app] in H1. exact H1.
+  Qed.
+
+  (** removal *)
+  Lemma remove_name_store fp d st i n :
+    remove_name re_ok fp (mkres d st i) n =
+    mkres (domains (remove_name re_ok fp (mkres d [] i) n)) st (idx (remove_name re_ok fp (mkres d [] i) n)).
+  Proof. unfold remove_name. cbn [idx domains store]. destruct (aget n i); reflexivity. Qed.
+
+  Definition drop_name (n : bytes) (names : list bytes) : list bytes := filter (fun x => negb (beq x n)) names.
+
+  Lemma In_drop_name n names x : In x (drop_name n names) <-> In x names /\ x <> n.
+  Proof. unfold drop_name. rewrite filter_In, negb_true_iff, beq_neq. tauto. Qed.
+
+  Lemma remove_name_agree d st i fp names_v e n :
+    agree d st i -> aget fp st = Some (mkcert fp names_v e) -> good_key n ->
+    let r1 := remove_name re_ok fp (mkres d [] i) n in
+    agree (domains r1) (aset fp (mkcert fp (drop_name n names_v) e) st) (idx r1).
+  Proof.
+    intros [W T X S N] HS G. cbv zeta.
+    set (l' := filter (fun en : entry => negb (beq (fst en) fp)) (idxl i n)).
+    set (d1 := fst (remove d n)).
+    set (d2 := match last_opt l' with Some (f, _) => fst (insert re_ok d1 n f) | None => d1 end).
+    set (i2 := match aget n i with Some _ => if is_nil l' then adel n i else aset n l' i | None => i end).
+    assert (ER : remove_name re_ok fp (mkres d [] i) n = mkres d2 [] i2).
+    { unfold remove_name, d2, i2, d1, l', idxl. cbn [idx domains store]. destruct (aget n i); [reflexivity|].
+      cbn [filter last_opt rev]. reflexivity. }
+    rewrite ER. cbn [domains idx].
+    assert (W1 : wf bytes d1) by (apply wf_remove_k; assumption).
+    assert (I2n : idxl i2 n = l').
+    { unfold i2, idxl. destruct (aget n i) as [l|] eqn:E.
+      - destruct (is_nil l') eqn:EN.
+        + rewrite aget_adel_same. destruct l'; [reflexivity|discriminate].
+        + rewrite aget_aset_same by congruence. reflexivity.
+      - rewrite E. unfold l', idxl. rewrite E. reflexivity. }
+    assert (I2o : forall n', n' <> n -> idxl i2 n' = idxl i n').
+    { intros n' NE. unfold i2, idxl. destruct (aget n i) as [l|]; [|reflexivity].
+      destruct (is_nil l'); [rewrite aget_adel_other by exact NE|rewrite aget_aset_other by exact NE]; reflexivity. }
+    assert (D2 : wf bytes d2 /\ option_map snd (getk bytes re_match d2 n) = top l' /\
+                 forall n', good_key n' -> n' <> n -> getk bytes re_match d2 n' = getk bytes re_match d n').
+    { unfold d2, top. destruct (last_opt l') as [[f ef]|] eqn:EL; cbn [option_map fst].
+      - pose proof (getk_remove_same bytes re_match d n G W) as N1. fold d1 in N1.
+        pose proof (insert_ok_absent bytes re_ok re_match d1 n f G W1 N1) as OK.
+        pose proof (wf_insert_k bytes re_ok d1 n f G W1) as W2.
+        destruct (insert re_ok d1 n f) as [t' res] eqn:EI. cbn [snd fst] in *. subst res.
+        split; [exact W2|]. split.
+        + rewrite (getk_insert_same bytes re_ok re_match d1 n f t' G W1 EI). reflexivity.
+        + intros n' G' NE. pose proof (getk_insert_other bytes re_ok re_match d1 n n' f G G' ltac:(congruence) W1) as O.
+          rewrite EI in O. cbn [fst] in O. rewrite O. unfold d1. apply getk_remove_other; auto.
+      - split; [exact W1|]. split.
+        + unfold d1. rewrite getk_remove_same by assumption. reflexivity.
+        + intros n' G' NE. unfold d1. apply getk_remove_other; auto. }
+    destruct D2 as (W2 & T2 & O2).
+    assert (ST : forall fp' c', aget fp' (aset fp (mkcert fp (drop_name n names_v) e) st) = Some c' <->
+                 (fp' = fp /\ c' = mkcert fp (drop_name n names_v) e) \/ (fp' <> fp /\ aget fp' st = Some c')).
+    { intros fp' c'. destruct (beq fp' fp) eqn:E.
+      - apply beq_eq in E; subst fp'. rewrite aget_aset_same by congruence.
+        split; [intros H; inversion H; auto|intros [[_ ->]|[H _]]; congruence].
+      - apply beq_neq in E. rewrite aget_aset_other by exact E.
+        split; [auto|intros [[H _]|[_ H]]; congruence]. }
+    constructor.
+    - exact W2.
+    - intros n' G'. destruct (beq n' n) eqn:En.
+      + apply beq_eq in En; subst n'. rewrite I2n. exact T2.
+      + apply beq_neq in En. rewrite O2, I2o by assumption. apply T; exact G'.
+    - intros n' fp' e'. destruct (beq n' n) eqn:En.
+      + apply beq_eq in En; subst n'. rewrite I2n. unfold l'. rewrite filter_In. cbn [fst].
+        rewrite negb_true_iff, beq_neq, X. split.
+        * intros [(c & Hc & Hn & He) NE]. exists c. split; [apply ST; auto|auto].
+        * intros (c & Hc & Hn & He). apply ST in Hc. destruct Hc as [[-> ->]|[NE Hc]].
+          -- cbn [c_names] in Hn. apply In_drop_name in Hn. destruct Hn as [_ Hn]. congruence.
+          -- split; [exists c; auto|exact NE].
+      + apply beq_neq in En. rewrite I2o by exact En. rewrite X. split.
+        * intros (c & Hc & Hn & He). destruct (beq fp' fp) eqn:Ef.
+          -- apply beq_eq in Ef; subst fp'. rewrite HS in Hc. inversion Hc; subst c. cbn [c_names c_exp] in *.
+             exists (mkcert fp (drop_name n names_v) e). split; [apply ST; auto|].
+             cbn [c_names c_exp]. split; [apply In_drop_name; auto|exact He].
+          -- apply beq_neq in Ef. exists c. split; [apply ST; auto|auto].
+        * intros (c & Hc & Hn & He). apply ST in Hc. destruct Hc as [[-> ->]|[NE Hc]].
+          -- cbn [c_names c_exp] in *. apply In_drop_name in Hn. exists (mkcert fp names_v e).
+             split; [exact HS|]. cbn [c_names c_exp]. tauto.
+          -- exists c; auto.
+    - intros n'. destruct (beq n' n) eqn:En.
+      + apply beq_eq in En; subst n'. rewrite I2n. apply filter_sorted, S.
+      + apply beq_neq in En. rewrite I2o by exact En. apply S.
+    - intros fp' c' Hc. apply ST in Hc. destruct Hc as [[-> ->]|[NE Hc]]; [|eauto].
+      cbn [c_names]. pose proof (N fp _ HS) as F. cbn [c_names] in F.
+      rewrite Forall_forall in *. intros x Hx. apply In_drop_name in Hx. apply F, Hx.
+  Qed.
+
+  Lemma remove_names_agree fp e todo : forall names_v d st i,
+      agree d st i -> aget fp st = Some (mkcert fp names_v e) ->
+      Forall good_key todo -> (forall x, In x names_v -> In x todo) ->
+      let r' := fold_left (remove_name re_ok fp) todo (mkres d st i) in
+      exists st', agree (domains r') st' (idx r') /\ store r' = st /\
+                  aget fp st' = Some (mkcert fp [] e) /\
+                  (forall fp', fp' <> fp -> aget fp' st' = aget fp' st).
+  Proof.
+    induction todo as [|n todo IH]; intros names_v d st i A HS G SUB; cbn [fold_left].
+    - exists st. split; [exact A|]. split; [reflexivity|]. split; [|auto].
+      destruct names_v as [|x xs]; [exact HS|]. destruct (SUB x (or_introl eq_refl)).
+    - inversion G as [|? ? Gn Gr]; subst. rewrite remove_name_store.
+      pose proof (remove_name_agree d st i fp names_v e n A HS Gn) as A1. cbv zeta in A1.
+      set (r1 := remove_name re_ok fp (mkres d [] i) n) in *.
+      set (st1 := aset fp (mkcert fp (drop_name n names_v) e) st) in *.
+      assert (HS1 : aget fp st1 = Some (mkcert fp (drop_name n names_v) e))
+        by (unfold st1; apply aget_aset_same; congruence).
+      assert (SUB1 : forall x, In x (drop_name n names_v) -> In x todo).
+      { intros x Hx. apply In_drop_name in Hx. destruct Hx as [Hx NE]. destruct (SUB x Hx) as [H|H]; [congruence|exact H]. }
+      (* the fold does not read the store: run it on [st1] instead of [st] *)
+      assert (FS : forall l d0 i0 sa sb,
+                 let ra := fold_left (remove_name re_ok fp) l (mkres d0 sa i0) in
+                 let rb := fold_left (remove_name re_ok fp) l (mkres d0 sb i0) in
+                 domains ra = domains rb /\ idx ra = idx rb /\ store ra = sa /\ store rb = sb).
+      { induction l as [|x l IHl]; intros d0 i0 sa sb; cbn [fold_left]; [auto|].
+        rewrite (remove_name_store fp d0 sa i0 x), (remove_name_store fp d0 sb i0 x). apply IHl. }
+      destruct (FS todo (domains r1) (idx r1) st st1) as (F1 & F2 & F3 & F4). cbv zeta in *.
+      destruct (IH (drop_name n names_v) (domains r1) st1 (idx r1) A1 HS1 Gr SUB1) as (st' & A' & E1 & E2 & E3).
+      cbv zeta in *. exists st'. rewrite F1, F2. split; [exact A'|]. split; [exact F3|]. split; [exact E2|].
+      intros fp' NE. rewrite E3 by exact NE. unfold st1. apply aget_aset_other; exact NE.
+  Qed.
+
+  Lemma remove_cert_agree r fp :
+    three_structures_agree r -> (forall c, aget fp (store r) = Some c -> c_fp c = fp) ->
+    three_structures_agree (remove_cert re_ok r fp).
+  Proof.
+    intros A KF. unfold remove_cert. destruct (aget fp (store r)) as [c|] eqn:E; [|exact A].
+    destruct r as [d st i]. unfold three_structures_agree in *. cbn [store domains idx] in *.
+    specialize (KF c eq_refl). destruct c as [fp0 names e]. cbn [c_fp c_names] in *. subst fp0.
+    pose proof (ag_names _ _ _ A fp _ E) as G. cbn [c_names] in G.
+    destruct (remove_names_agree fp e names names d st i A E G (fun x H => H)) as (st' & A' & E1 & E2 & E3).
+    cbv zeta in *. rewrite E1. destruct A' as [W T X S N]. constructor; auto.
+    - intros n fp' e'. rewrite X. split; intros (c & Hc & Hn & He).
+      + destruct (beq fp' fp) eqn:Ef.
+        * apply beq_eq in Ef; subst fp'. rewrite E2 in Hc. inversion Hc; subst c. destruct Hn.
+        * apply beq_neq in Ef. exists c. rewrite aget_adel_other by exact Ef. rewrite <- E3 by exact Ef. auto.
+      + destruct (beq fp' fp) eqn:Ef.
+        * apply beq_eq in Ef; subst fp'. rewrite aget_adel_same in Hc. discriminate.
+        * apply beq_neq in Ef. rewrite aget_adel_other in Hc by exact Ef. exists c. rewrite E3 by exact Ef. auto.
+    - intros fp' c Hc. destruct (beq fp' fp) eqn:Ef.
+      + apply beq_eq in Ef; subst fp'. rewrite aget_adel_same in Hc. discriminate.
+      + apply beq_neq in Ef. rewrite aget_adel_other in Hc by exact Ef. apply (N fp' c). rewrite E3 by exact Ef. exact Hc.
+  Qed.
+End Inv.
+
+(** ** histories *)
+Section Hist.
+  Variable re_ok : bytes -> bool.
+  Variable re_match : bytes -> bytes -> bool.
+
+  Definition store_keys (r : resolver) : Prop := forall fp c, aget fp (store r) = Some c -> c_fp c = fp.
+  Definition good_state (r : resolver) : Prop := three_structures_agree re_match r /\ store_keys r.
+
+  Inductive cop :=
+  | CAdd (c : option cert)                       (* [None]: the certificate does not parse *)
+  | CDel (fp : bytes)
+  | CRep (c : option cert) (old : option bytes). (* [old = None]: unparsable old fingerprint *)
+
+  Definition cstep (r : resolver) (o : cop) : resolver :=
+    match o with
+    | CAdd None => r
+    | CAdd (Some c) => add_cert re_ok r c
+    | CDel fp => remove_cert re_ok r fp
+    | CRep c old => fst (replace_cert re_ok r c old)
+    end.
+  Definition crun (h : list cop) : resolver := fold_left cstep h empty_resolver.
+
+  Definition plain_cert (c : option cert) : Prop :=
+    match c with Some c => Forall good_key (c_names c) | None => True end.
+  Definition plain_cop (o : cop) : Prop :=
+    match o with CAdd c => plain_cert c | CDel _ => True | CRep c _ => plain_cert c end.
+
+  Lemma store_keys_add r c : store_keys r -> store_keys (add_cert re_ok r c).
+  Proof.
+    intros K. unfold add_cert. destruct (aget (c_fp c) (store r)) eqn:E; cbn [is_some]; [exact K|].
+    destruct r as [d st i]. destruct c as [fp names e]. cbn [c_fp c_names c_exp store] in *.
+    assert (ST : forall names0 d0 i0, store (fold_left (add_name re_ok fp e) names0 (mkres d0 st i0)) = st).
+    { induction names0 as [|n names0 IH]; intros d0 i0; cbn [fold_left]; [reflexivity|].
+      rewrite add_name_store. apply IH. }
+    intros fp' c'. cbn [store]. rewrite ST, aget_app. destruct (aget fp' st) eqn:E1.
+    - intros H; inversion H; subst. apply (K fp' c' E1).
+    - cbn [aget]. destruct (beq fp' fp) eqn:E2; [|discriminate]. apply beq_eq in E2.
+      intros H; inversion H; subst. reflexivity.
+  Qed.
+
+  Lemma store_keys_remove r fp : store_keys r -> store_keys (remove_cert re_ok r fp).
+  Proof.
+    intros K. unfold remove_cert. destruct (aget fp (store r)) as [c|] eqn:E; [|exact K].
+    destruct r as [d st i]. cbn [store] in *.
+    assert (ST : forall names0 d0 i0, store (fold_left (remove_name re_ok fp) names0 (mkres d0 st i0)) = st).
+    { induction names0 as [|n names0 IH]; intros d0 i0; cbn [fold_left]; [reflexivity|].
+      rewrite remove_name_store. apply IH. }
+    intros fp' c'. cbn [store]. rewrite ST. destruct (beq fp' fp) eqn:E2.
+    - apply beq_eq in E2; subst. rewrite aget_adel_same. discriminate.
+    - apply beq_neq in E2. rewrite aget_adel_other by exact E2. apply K.
+  Qed.
+
+  Lemma good_add r c : good_state r -> Forall good_key (c_names c) -> good_state (add_cert re_ok r c).
+  Proof. intros [A K] G. split; [apply add_cert_agree; assumption|apply store_keys_add; exact K]. Qed.
+  Lemma good_remove r fp : good_state r -> good_state (remove_cert re_ok r fp).
+  Proof.
+    intros [A K]. split; [apply remove_cert_agree; [exact A|intros c; apply K]|apply store_keys_remove; exact K].
+  Qed.
+
+  Lemma good_step r o : good_state r -> plain_cop o -> good_state (cstep r o).
+  Proof.
+    intros GS P. destruct o as [[c|]|fp|[c|] old]; cbn [cstep plain_cop plain_cert replace_cert fst] in *; auto.
+    - apply good_add; assumption.
+    - apply good_remove; assumption.
+    - destruct old as [o|]; cbn [fst].
+      + destruct (beq o (c_fp c)); cbn [fst]; [exact GS|]. apply good_remove. apply good_add; assumption.
+      + apply good_add; assumption.
+  Qed.
+
+  Lemma good_run_gen h : forall r, good_state r -> Forall plain_cop h -> good_state (fold_left cstep h r).
+  Proof.
+    induction h as [|o h IH]; intros r GS P; cbn [fold_left]; [exact GS|].
+    inversion P; subst. apply IH; [apply good_step|]; assumption.
+  Qed.
+
+  Lemma good_run h : Forall plain_cop h -> good_state (crun h).
+  Proof.
+    apply good_run_gen. split; [apply agree_empty|]. intros fp c H; discriminate.
+  Qed.
+
+  (** *** what is served *)
+  Definition carries (st : list (bytes * cert)) (n fp : bytes) (c : cert) : Prop :=
+    aget fp st = Some c /\ In n (c_names c).
+
+  (** exact name over wild-card, longest-lived among the certificates carrying
+      that name; [None] only when no loaded certificate carries either *)
+  Definition is_best_cert (st : list (bytes * cert)) (sni : bytes) (o : option bytes) : Prop :=
+    match o with
+    | Some fp =>
+      exists c n, carries st n fp c /\
+                  (n = sni \/ (n = wild_of sni /\ forall fp' c', ~ carries st sni fp' c')) /\
+                  forall fp' c', carries st n fp' c' -> (c_exp c' <= c_exp c)%Z
+    | None => forall fp c, ~ carries st sni fp c /\ ~ carries st (wild_of sni) fp c
+    end.
+
+  Lemma top_best r n :
+    three_structures_agree re_match r ->
+    match top (idxf r n) with
+    | Some fp => exists c, carries (store r) n fp c /\ forall fp' c', carries (store r) n fp' c' -> (c_exp c' <= c_exp c)%Z
+    | None => forall fp c, ~ carries (store r) n fp c
+    end.
+  Proof.
+    intros A. unfold top, idxf. destruct (last_opt (idxl (idx r) n)) as [[fp e]|] eqn:EL; cbn [option_map fst].
+    - pose proof (last_opt_In _ _ EL) as Hin. apply (ag_idx _ _ _ _ A) in Hin. destruct Hin as (c & Hc & Hn & He).
+      exists c. split; [split; assumption|]. intros fp' c' [Hc' Hn'].
+      assert (Hin' : In (fp', c_exp c') (idxl (idx r) n)) by (apply (ag_idx _ _ _ _ A); exists c'; auto).
+      pose proof (sorted_last_max _ _ (ag_sorted _ _ _ _ A n) EL _ Hin') as M. cbn [snd] in M. lia.
+    - apply last_opt_nil in EL. intros fp c [Hc Hn].
+      assert (Hin : In (fp, c_exp c) (idxl (idx r) n)) by (apply (ag_idx _ _ _ _ A); exists c; auto).
+      rewrite EL in Hin. destruct Hin.
+  Qed.
+
+  Lemma resolve_best r sni :
+    three_structures_agree re_match r -> good_key sni -> label_of sni <> [STAR] ->
+    is_best_cert (store r) sni (option_map snd (resolve re_match r sni)).
+  Proof.
+    intros A G NS. unfold resolve. rewrite (lookup_getk bytes re_match (domains r) sni G NS (ag_wf _ _ _ _ A)).
+    assert (GW : good_key (wild_of sni)) by (apply good_key_wild; apply (good_key_parts sni G)).
+    pose proof (ag_trie _ _ _ _ A sni G) as T1. pose proof (ag_trie _ _ _ _ A _ GW) as T2.
+    pose proof (top_best r sni A) as B1. pose proof (top_best r (wild_of sni) A) as B2.
+    unfold idxf in *.
+    destruct (getk bytes re_match (domains r) sni) as [[k fp]|]; cbn [option_map snd] in *.
+    - rewrite <- T1 in B1. destruct B1 as (c & C & M). exists c, sni. auto.
+    - rewrite <- T1 in B1.
+      destruct (getk bytes re_match (domains r) (wild_of sni)) as [[k fp]|]; cbn [option_map snd] in *.
+      + rewrite <- T2 in B2. destruct B2 as (c & C & M). exists c, (wild_of sni). auto.
+      + rewrite <- T2 in B2. intros fp c. split; [apply B1|apply B2].
+  Qed.
+
+  Theorem resolve_refines_best_lemma h sni :
+    Forall plain_cop h -> good_key sni -> label_of sni <> [STAR] ->
+    is_best_cert (store (crun h)) sni (option_map snd (resolve re_match (crun h) sni)).
+  Proof. intros P G NS. apply resolve_best; auto. apply good_run; exact P. Qed.
+
+  (** *** replace *)
+  Lemma store_add_mono r c fp c0 :
+    aget fp (store r) = Some c0 -> aget fp (store (add_cert re_ok r c)) = Some c0.
+  Proof.
+    intros H. unfold add_cert. destruct (aget (c_fp c) (store r)) eqn:E; cbn [is_some]; [exact H|].
+    destruct r as [d st i]. destruct c as [fp1 names e]. cbn [c_fp c_names c_exp store] in *.
+    assert (ST : forall names0 d0 i0, store (fold_left (add_name re_ok fp1 e) names0 (mkres d0 st i0)) = st).
+    { induction names0 as [|n names0 IH]; intros d0 i0; cbn [fold_left]; [reflexivity|].
+      rewrite add_name_store. apply IH. }
+    rewrite ST, aget_app, H. reflexivity.
+  Qed.
+
+  Lemma covered_iff r sni :
+    three_structures_agree re_match r -> good_key sni -> label_of sni <> [STAR] ->
+    (resolve re_match r sni <> None <->
+     exists fp c, carries (store r) sni fp c \/ carries (store r) (wild_of sni) fp c).
+  Proof.
+    intros A G NS. pose proof (resolve_best r sni A G NS) as B.
+    destruct (resolve re_match r sni) as [[k fp]|]; cbn [option_map snd is_best_cert] in B.
+    - split; [intros _|discriminate]. destruct B as (c & n & C & [->|[-> _]] & _); exists fp, c; auto.
+    - split; [congruence|]. intros (fp & c & [C|C]); destruct (B fp c) as [B1 B2]; contradiction.
+  Qed.
+
+  (** between the add and the remove of [replace_certificate] every name that
+      was covered is still covered, and the three structures agree *)
+  Lemma replace_no_gap_lemma r c sni :
+    good_state r -> Forall good_key (c_names c) -> good_key sni -> label_of sni <> [STAR] ->
+    good_state (replace_mid re_ok r c) /\
+    (resolve re_match r sni <> None -> resolve re_match (replace_mid re_ok r c) sni <> None).
+  Proof.
+    intros GS G Gs NS. pose proof (good_add r c GS G) as GM. split; [exact GM|].
+    unfold replace_mid. rewrite (covered_iff r sni (proj1 GS) Gs NS).
+    rewrite (covered_iff _ sni (proj1 GM) Gs NS).
+    intros (fp & c0 & [[H1 H2]|[H1 H2]]); exists fp, c0; [left|right]; split; auto using store_add_mono.
+  Qed.
+
+  Lemma replace_failing_unchanged r old : replace_cert re_ok r None old = (r, false).
+  Proof. reflexivity. Qed.
+
+  Lemma replace_idempotent_unchanged r c : replace_cert re_ok r (Some c) (Some (c_fp c)) = (r, true).
+  Proof. cbn [replace_cert]. rewrite beq_refl. reflexivity. Qed.
+End Hist.
+
+(** ** strict SNI *)
+Lemma split_once_spec c l a b : split_once c l = Some (a, b) <-> l = a ++ c :: b /\ mem c a = false.
+Proof.
+  revert a b; induction l as [|x r IH]; intros a b; cbn [split_once].
+  - split; [discriminate|]. intros [H _]. destruct a; discriminate.
+  - destruct (N.eqb x c) eqn:E.
+    + apply N.eqb_eq in E; subst x. split.
+      * intros H; inversion H; subst. split; reflexivity.
+      * intros [H M]. destruct a as [|y a]; cbn [app mem] in *; [inversion H; reflexivity|].
+        inversion H; subst. rewrite N.eqb_refl in M. discriminate.
+    + destruct (split_once c r) as [[a' b']|] eqn:ES.
+      * split.
+        -- intros H; inversion H; subst. destruct (proj1 (IH a' b) eq_refl) as [-> M]. cbn [app mem]. rewrite E. auto.
+        -- intros [H M]. destruct a as [|y a]; cbn [app mem] in *; inversion H; subst.
+           ++ rewrite N.eqb_refl in E. discriminate.
+           ++ apply orb_false_iff in M. destruct M as [_ M].
+              pose proof (proj2 (IH a b) (conj eq_refl M)) as F. inversion F; subst. reflexivity.
+      * split; [discriminate|]. intros [H M]. destruct a as [|y a]; cbn [app mem] in *; inversion H; subst.
+        -- rewrite N.eqb_refl in E. discriminate.
+        -- apply orb_false_iff in M. destruct M as [_ M].
+           pose proof (proj2 (IH a b) (conj eq_refl M)) as F. discriminate.
+Qed.
+
+Lemma eq_ic_spec a b : eq_ic a b = true <-> map lower a = map lower b.
+Proof.
+  revert b; induction a as [|x a IH]; destruct b as [|y b]; cbn [eq_ic map]; try (split; congruence).
+  rewrite andb_true_iff, N.eqb_eq, IH. split; [intros [-> ->]; reflexivity|intros H; inversion H; auto].
+Qed.
+
+(** what [entry_covers] accepts, declaratively (RFC 6125 6.4.3): an entry
+    without '*' equal to the host up to ASCII case, or ["*." ++ suffix] with no
+    further '*' where the host is one non-empty dot-free label, a dot, and the
+    suffix up to case *)
+Definition covers_spec (host entry : bytes) : Prop :=
+  (exists suffix, entry = STAR :: DOT :: suffix /\ mem_byte STAR suffix = false /\
+                  exists l rest, host = l ++ DOT :: rest /\ l <> [] /\ mem DOT l = false /\
+                                 map lower rest = map lower suffix) \/
+  ((forall suffix, entry <> STAR :: DOT :: suffix) /\ mem_byte STAR entry = false /\
+   map lower host = map lower entry).
+
+Lemma entry_covers_spec host entry : entry_covers host entry = true <-> covers_spec host entry.
+Proof.
+  unfold covers_spec.
+  assert (W : forall suffix, wild_covers host suffix = true <->
+                             mem_byte STAR suffix = false /\
+                             exists l rest, host = l ++ DOT :: rest /\ l <> [] /\ mem DOT l = false /\
+                                            map lower rest = map lower suffix).
+  { intros suffix. unfold wild_covers.
+    destruct (mem_byte STAR suffix); [split; [discriminate|intros [H _]; discriminate]|].
+    destruct (split_once DOT host) as [[l rest]|] eqn:ES.
+    - apply split_once_spec in ES. destruct ES as [-> M]. rewrite andb_true_iff, negb_true_iff, eq_ic_spec. split.
+      + intros [NL EQ]. split; [reflexivity|]. exists l, rest. repeat split; auto. intros ->; discriminate.
+      + intros [_ (l' & rest' & E & NL & M' & EQ)].
+        assert (ES' : split_once DOT (l ++ DOT :: rest) = Some (l', rest')) by (apply split_once_spec; auto).
+        assert (ES0 : split_once DOT (l ++ DOT :: rest) = Some (l, rest)) by (apply split_once_spec; auto).
+        rewrite ES0 in ES'. inversion ES'; subst. split; [destruct l'; [congruence|reflexivity]|exact EQ].
+    - split; [discriminate|]. intros [_ (l' & rest' & E & NL & M' & EQ)].
+      assert (ES' : split_once DOT host = Some (l', rest')) by (apply split_once_spec; auto). congruence. }
+  assert (X : forall e, exact_covers host e = true <-> mem_byte STAR e = false /\ map lower host = map lower e).
+  { intros e. unfold exact_covers. destruct (mem_byte STAR e); [split; [discriminate|intros [H _]; discriminate]|].
+    rewrite eq_ic_spec. tauto. }
+  unfold entry_covers.
+  destruct entry as [|c1 [|c2 suffix]].
+  - rewrite X. split; [intros H; right; split; [intros s; discriminate|exact H]|].
+    intros [(s & E & _)|[_ H]]; [discriminate|exact H].
+  - rewrite X. split; [intros H; right; split; [intros s; discriminate|exact H]|].
+    intros [(s & E & _)|[_ H]]; [discriminate|exact H].
+  - destruct (N.eqb c1 STAR && N.eqb c2 DOT) eqn:EB.
+    + apply andb_true_iff in EB. destruct EB as [E1 E2]. apply N.eqb_eq in E1, E2. subst c1 c2.
+      rewrite W. split; [intros H; left; exists suffix; split; [reflexivity|exact H]|].
+      intros [(s & E & H)|[H _]]; [inversion E; subst; exact H|exfalso; apply (H suffix); reflexivity].
+    + rewrite X. split.
+      * intros H; right; split; [|exact H]. intros s Hs. inversion Hs; subst.
+        rewrite !N.eqb_refl in EB. discriminate.
+      * intros [(s & Es & _)|[_ H]]; [|exact H]. inversion Es; subst. rewrite !N.eqb_refl in EB. discriminate.
+Qed.
+
+Lemma authority_matched_spec authority names :
+  match authority_matched authority names with
+  | Some e => In e names /\ covers_spec (host_of_authority authority) e
+  | None => host_of_authority authority = [] \/
+            forall e, In e names -> ~ covers_spec (host_of_authority authority) e
+  end.
+Proof.
+  unfold authority_matched. destruct (host_of_authority authority) as [|c h] eqn:EH; cbn [is_nil]; [left; reflexivity|].
+  destruct (find (entry_covers (c :: h)) names) as [e|] eqn:EF.
+  - apply find_some in EF. destruct EF as [I C]. split; [exact I|apply entry_covers_spec; exact C].
+  - right. intros e I C. apply entry_covers_spec in C. rewrite (find_none _ _ EF e I) in C. discriminate.
+Qed.
